@@ -1265,7 +1265,9 @@ func ruleFD4(c *Ctx) *rule {
 		s2 := c.newSlicer()
 		s2.depth = 0
 		b := s2.run(args[idx(fw.stop)])
-		if a.hasCall("os.Getwd") && b.hasCall("os.UserHomeDir") {
+		if a.hasCall("os.Getwd") && b.hasCall("os.UserHomeDir") && (b.hasCall("os.Getwd") || a.hasCall("os.UserHomeDir")) {
+			r.bad(key, c.ipos(site), "the start or the stop directory of the search is chosen between the working directory and the home directory: when the other one is picked the directories between them are never searched")
+		} else if a.hasCall("os.Getwd") && b.hasCall("os.UserHomeDir") {
 			r.ok(key, c.ipos(site), "start is the working directory, stop the home directory")
 		} else {
 			r.bad(key, c.ipos(site), "Find is not called with (working directory, home directory)")
@@ -1375,12 +1377,12 @@ func fsProperties() []*propertySpec {
 			Explanation: "Static analysis of the single doublestar.GlobWalk call and its callback: GL1 proves by edge dominance that SkipDir is returned only for directory entries (library contract read in the module cache); GL2 enumerates every path of the callback and proves exactly one append of the entry's path per nil return outside the hidden-name branch; GL3 proves by slicing that the walked file system is os.DirFS(SpokFile.Dir), the pattern is the declared one unchanged, matches are joined with the same root and SpokFile.Globs is keyed by the expanded pattern; GL4 proves that nothing but loop conditions, error checks and the already-expanded test (miss side, non-empty hit) guards the expansion on the way from SpokFile.Run.",
 			NotCovered:  []string{"the doublestar matcher itself", "the exact hidden-name predicate (top-level vs nested dot entries)", "symlinks"},
 			Assumptions: []string{"doublestar v4.7.1 GlobWalk: SkipDir for a non-directory entry abandons the rest of its parent directory (globwalk.go); patterns are matched against paths relative to the fs.FS root"},
-			Rules:       []func(*Ctx) *rule{ruleGL1, ruleGL2, ruleGL3, ruleGL4}},
+			Rules:       []func(*Ctx) *rule{ruleGL1, ruleGL2, ruleGL3, ruleGL4, ruleTK2, ruleAB2}},
 		{ID: "C17", Title: "Spokfile discovery terminates and finds the nearest enclosing spokfile",
 			Explanation: "Static analysis of file.Find: the walk loop is identified by its header phi fed by filepath.Dir of itself; FD1/FD2 classify every exit test of the loop by backward slicing (depends on the searched directory, independent of os.ReadDir results, dominates the back edge, can fire at the root); FD3 proves no negative answer is returned from inside the loop over the entries; FD4 proves the found-return is guarded by Name()==NAME and !IsDir() of the same entry and that the CLI passes cwd/home; FD5 proves the stop comparison is made on the listed directory after its entries were read.",
 			NotCovered:  []string{"symlinked directories, permission errors other than being reported", "that filepath.Dir reaches a fixed point at the root (library fact)"},
 			Assumptions: []string{"filepath.Dir(d) == d exactly at a file-system root; os.ReadDir returns all entries of a directory"},
-			Rules:       []func(*Ctx) *rule{ruleFD1, ruleFD3, ruleFD4, ruleFD5, ruleFD6}},
+			Rules:       []func(*Ctx) *rule{ruleFD1, ruleFD3, ruleFD4, ruleFD5, ruleFD6, ruleAB2}},
 	}
 }
 
